@@ -3,7 +3,7 @@ From Coq Require Import List ZArith.
 Import ListNotations.
 From Exmex.Model Require Import Base EvalBinary Lexer Flat Deep.
 From Exmex.Spec Require Import RefSem.
-From Exmex.Proofs Require Import Precond CommaRewrite LexSpaced ParseComplete Damage.
+From Exmex.Proofs Require Import Precond CommaRewrite LexSpaced LexFlex ParseComplete Damage.
 
 (* All statements are for EVERY operator table, data type and token list (not for a catalogue of damages).
    A token list is what the tokenizer hands to both parsers; the text-level statements for blank texts and
@@ -99,6 +99,22 @@ Proof.
   split; [intros fb; unfold parse, parse_wo_compile; rewrite Ht; exists E_TOKENIZE; reflexivity|unfold parse_deep; rewrite Ht; exists E_TOKENIZE; reflexivity].
 Qed.
 
+(* ... the same behind a prefix with free spacing (Proofs/LexFlex.v), a number or operator name at the end of the prefix
+   being followed by at least one space: `sin({x})+$`, `( {x}+12 #` *)
+Theorem C07_unknown_char_free_spacing : forall (D : Type) (C : carrier D) (tb : optable) (is_literal : str -> option nat) (items : list (token D * nat)) (s : str),
+  Forall (flexable C tb is_literal) (map fst items) -> gaps_ok C tb items ->
+  (forall t n, last items (TOpen, 0) = (t, n) -> items <> [] -> needs_term t = true -> 1 <= n) ->
+  unknown_start tb is_literal s ->
+  tokenize C tb is_literal (ftext C tb items ++ s) = Err E_TOKENIZE /\
+  (forall fb, is_err (parse_wo_compile C tb fb is_literal (ftext C tb items ++ s))) /\
+  (forall fb, is_err (parse C tb fb is_literal (ftext C tb items ++ s))) /\ is_err (parse_deep C tb is_literal (ftext C tb items ++ s)).
+Proof.
+  intros D C tb is_literal items s HF Hg Hl Hs. pose proof (tokenize_unknown_char_flex C tb is_literal items s HF Hg Hl Hs) as Ht. split; [exact Ht|].
+  split; [intros fb; unfold parse_wo_compile; rewrite Ht; exists E_TOKENIZE; reflexivity|].
+  split; [intros fb; unfold parse, parse_wo_compile; rewrite Ht; exists E_TOKENIZE; reflexivity|unfold parse_deep; rewrite Ht; exists E_TOKENIZE; reflexivity].
+Qed.
+
+
 (* non-vacuity: two adjacent operands pass the pair rules and are rejected by the count *)
 Example C07_adjacent_operands :
   exists e, parse_tokens_wo (D:=term) [] true [] [TNum (Lit [49%N]); TNum (Lit [50%N])] = Err e.
@@ -115,3 +131,4 @@ Print Assumptions C07_extra_operand_rejected_deep.
 Print Assumptions C07_tree_renderings_have_no_prefix_notation.
 Print Assumptions C07_blank_text.
 Print Assumptions C07_unknown_char.
+Print Assumptions C07_unknown_char_free_spacing.
